@@ -212,10 +212,10 @@ _ASSIGN_PURE = [("AssignAdd", "add"), ("AssignSubtract", "subtract"), ("AssignMu
 _ASSIGN_FALL = [("AssignDivide", "divide"), ("AssignModulo", "modulo"), ("AssignLShift", "lshift"),
                 ("AssignRShift", "rshift"), ("AssignPow", "pow")]
 for _v, _m in _ASSIGN_PURE:
-    _ens.append((f"binop.exec.compound_{_m}", ["C08"],
+    _ens.append((f"binop.exec.compound_{_m}", ["C08", "C13"],
                  f"self.op is {_v} && {_both} ==> r == {OKV}(op_{_m}(cell_content({L}->Ok_0), {R}->Ok_0))"))
 for _v, _m in _ASSIGN_FALL:
-    _ens.append((f"binop.exec.compound_{_m}", ["C08"],
+    _ens.append((f"binop.exec.compound_{_m}", ["C08", "C13"],
                  f"self.op is {_v} && {_both} ==> (match op_{_m}(cell_content({L}->Ok_0), {R}->Ok_0) {{ "
                  f"Ok(v) => r == {OKV}(v), Err(e) => r is Err }})"))
 _ens.append(("binop.exec.is_the_semantic_function_binop_res", ["C04", "C07", "C08"],
@@ -253,7 +253,7 @@ unit(id="unop.exec", src=UNOP, path=[("impl", "Exec for UnaryOperation"), ("fn",
           f"self.op is UnaryMinus && {E} is Ok ==> r == {OKV}(op_unary_minus({E}->Ok_0))"),
          ("unop.exec.return_signals", ["C12"],
           f"self.op is Return && {E} is Ok ==> r == Err::<Variable, ExecStop>(ExecStop::Return({E}->Ok_0))"),
-         ("unop.exec.dispatch_indirection", ["C07"],
+         ("unop.exec.dispatch_indirection", ["C07", "C13"],
           f"self.op is Indirection && {E} is Ok ==> r == {OKV}(op_indirection({E}->Ok_0))"),
          ("unop.exec.dispatch_iter", ["C07"], f"self.op is Iter && {E} is Ok ==> r == {OKV}(op_iter({E}->Ok_0))"),
          ("unop.exec.dispatch_sum", ["C07"],
@@ -855,3 +855,5 @@ unit(id="variable.eq", src="src/variable.rs", path=[("impl", "PartialEq for Vari
           "(self is Mut && other is Mut ==> r == (self->Mut_0.id@ == other->Mut_0.id@)) "
           "&& (self is Function && other is Function ==> r == (self->Function_0.id@ == other->Function_0.id@))"),
      ])
+
+import vunits_c13  # noqa: E402,F401  (C13 units; registers itself through unit())
